@@ -3,5 +3,6 @@ EXTENDS Api
 Api_Names == { <<"a">>, <<"b">> }
 \* a name with '/' : fine for output and walk, invalid for the validating operations
 Api_NamesSlash == { <<"a">>, <<"a", "SL", "b">>, <<"b", "SL">> }
+Api_Names1 == { <<"a">> }
 Api_Names3 == { <<"a">>, <<"b">>, <<"a", "SP", "b">> }
 =============================================================================
